@@ -74,7 +74,7 @@ func (f *FieldUpdater) Merge(dst, src proto.Message) {
 
 	var writableMask fmutils.NestedMask
 	if f.writableFields != nil {
-		writableMask = fmutils.NestedMaskFromPaths(f.writableFields.Paths)
+		writableMask = fmutils.NestedMaskFromPaths(fieldmaskpb.Union(f.writableFields, nil).GetPaths())
 	}
 
 	// only allow writing writable fields by resetting non-writable fields in src
@@ -95,7 +95,8 @@ func (f *FieldUpdater) Merge(dst, src proto.Message) {
 		return
 	}
 
-	nestedMask := fmutils.NestedMaskFromPaths(mask.GetPaths())
+	// normalise so that a path listed together with one of its sub-paths means the whole field
+	nestedMask := fmutils.NestedMaskFromPaths(fieldmaskpb.Union(mask, nil).GetPaths())
 	nestedMask.Filter(src)
 	proto.Merge(dst, src)
 
